@@ -34,12 +34,12 @@ type Stats struct {
 }
 
 type Engine struct {
-	repo     string
-	prog     *ssa.Program
-	pkgs     []*packages.Package
-	allPkgs  []*packages.Package // topological (deps first)
-	fset     *token.FileSet
-	overlay  map[string][]byte
+	repo    string
+	prog    *ssa.Program
+	pkgs    []*packages.Package
+	allPkgs []*packages.Package // topological (deps first)
+	fset    *token.FileSet
+	overlay map[string][]byte
 
 	muIntr     sync.RWMutex
 	intrinsics map[*ssa.Function]intrinsicFn
@@ -52,10 +52,10 @@ type Engine struct {
 	params                                                      map[string]int
 	collisionFree                                               map[string]bool // UF names with injectivity axiom
 
-	shared    map[*ssa.Global]*value
-	poisoned  map[*ssa.Global]string
-	sharedMu  sync.Mutex
-	initFail  map[string]string
+	shared   map[*ssa.Global]*value
+	poisoned map[*ssa.Global]string
+	sharedMu sync.Mutex
+	initFail map[string]string
 
 	runtimeErrorString types.Type
 	stats              Stats
@@ -91,9 +91,10 @@ func Load(repo string, overlay map[string][]byte, patterns []string) (*Engine, e
 	cfg := &packages.Config{
 		Mode: packages.NeedName | packages.NeedFiles | packages.NeedCompiledGoFiles | packages.NeedImports |
 			packages.NeedDeps | packages.NeedTypes | packages.NeedSyntax | packages.NeedTypesInfo | packages.NeedTypesSizes | packages.NeedModule,
-		Dir:     repo,
-		Overlay: overlay,
-		Env:     append(os.Environ(), "GOFLAGS=-mod=mod", "GOPROXY=off", "GOSUMDB=off", "GOTOOLCHAIN=local", "CGO_ENABLED=1"),
+		Dir:        repo,
+		Overlay:    overlay,
+		BuildFlags: []string{"-tags=verif"},
+		Env:        append(os.Environ(), "GOFLAGS=-mod=mod", "GOPROXY=off", "GOSUMDB=off", "GOTOOLCHAIN=local", "CGO_ENABLED=1"),
 	}
 	pkgs, err := packages.Load(cfg, patterns...)
 	if err != nil {
@@ -111,7 +112,24 @@ func Load(repo string, overlay map[string][]byte, patterns []string) (*Engine, e
 	if nerr > 0 {
 		return nil, fmt.Errorf("%d load errors in poly packages", nerr)
 	}
-	prog, _ := ssautil.AllPackages(pkgs, ssa.InstantiateGenerics)
+	// ssautil.AllPackages skips packages that are (transitively) ill-typed: the cgo package
+	// harmony-one/bls would take cross_chain_manager with it. Create every package ourselves:
+	// packages without errors of their own from syntax, the others as declarations only.
+	var fset0 *token.FileSet
+	if len(pkgs) > 0 {
+		fset0 = pkgs[0].Fset
+	}
+	prog := ssa.NewProgram(fset0, ssa.InstantiateGenerics)
+	packages.Visit(pkgs, nil, func(p *packages.Package) {
+		if p.Types == nil {
+			return
+		}
+		if len(p.Errors) == 0 && p.TypesInfo != nil {
+			prog.CreatePackage(p.Types, p.Syntax, p.TypesInfo, true)
+		} else {
+			prog.CreatePackage(p.Types, nil, nil, true)
+		}
+	})
 	prog.Build()
 	e := &Engine{repo: repo, prog: prog, pkgs: pkgs, fset: prog.Fset, overlay: overlay,
 		intrinsics: map[*ssa.Function]intrinsicFn{}, overrides: map[*ssa.Function]*ssa.Function{},
